@@ -22,6 +22,7 @@ type GenOpts struct {
 	HasOut    bool
 	KindsFree bool // any of the 8 workload kinds and expressions
 	Shared    bool // some workloads of different namespaces share one name
+	Collide   bool // adversarial names: two kinds with one name in a namespace; a bare Pod named like a synthetic replica pod
 }
 
 var (
@@ -136,7 +137,78 @@ func (g *G) subBlock(b Cidr) Cidr {
 	return Cidr{Lo: l, Hi: l + s - 1}
 }
 
+// derivedPeer builds a pod peer whose selectors are derived from a real workload of the world and its namespace:
+// the shapes exposure analysis refines (label equalities an existing workload satisfies) and their near misses
+// (the same equalities plus an expression, satisfied or not; single-value In spellings; the namespace by name).
+func (g *G) derivedPeer() (NPPeer, bool) {
+	if len(g.W.Workloads) == 0 {
+		return NPPeer{}, false
+	}
+	wl := g.W.Workloads[g.R.Intn(len(g.W.Workloads))]
+	var nsLabels Labels
+	for _, n := range g.W.Namespaces {
+		if n.Name == wl.NS {
+			nsLabels = n.Labels
+		}
+	}
+	p := NPPeer{Kind: "pod", NsNil: true, PodNil: true, Excepts: []Cidr{}}
+	// pod selector
+	switch g.R.Intn(5) {
+	case 0: // nil
+	case 1:
+		p.PodNil, p.PodSel = false, Sel{ML: Labels{}, Ex: []Expr{}}
+	default:
+		p.PodNil, p.PodSel = false, Sel{ML: Labels{}, Ex: []Expr{}}
+		for k, v := range wl.Labels {
+			if g.R.Intn(3) != 0 {
+				if g.R.Intn(4) == 0 {
+					p.PodSel.Ex = append(p.PodSel.Ex, Expr{Key: k, Op: "In", Vals: []string{v}})
+				} else {
+					p.PodSel.ML[k] = v
+				}
+			}
+		}
+		if g.R.Intn(5) == 0 {
+			p.PodSel.Ex = append(p.PodSel.Ex, Expr{Key: pick(g.R, PodKeys), Op: pick(g.R, []string{"Exists", "DoesNotExist", "NotIn"}), Vals: []string{"c"}})
+			if p.PodSel.Ex[len(p.PodSel.Ex)-1].Op != "NotIn" {
+				p.PodSel.Ex[len(p.PodSel.Ex)-1].Vals = []string{}
+			}
+		}
+	}
+	// namespace selector
+	switch g.R.Intn(7) {
+	case 0: // nil: the policy's namespace
+	case 1:
+		p.NsNil, p.NsSel = false, Sel{ML: Labels{NameKey: wl.NS}, Ex: []Expr{}}
+	case 2:
+		p.NsNil, p.NsSel = false, Sel{ML: Labels{}, Ex: []Expr{{Key: NameKey, Op: "In", Vals: []string{wl.NS}}}}
+	default:
+		p.NsNil, p.NsSel = false, Sel{ML: Labels{}, Ex: []Expr{}}
+		for k, v := range nsLabels {
+			if g.R.Intn(3) != 0 {
+				p.NsSel.ML[k] = v
+			}
+		}
+		if g.R.Intn(2) == 0 { // the equalities plus an expression the real namespace may or may not satisfy
+			e := Expr{Key: pick(g.R, NsKeys), Op: pick(g.R, []string{"In", "NotIn", "Exists", "DoesNotExist"}), Vals: []string{}}
+			if e.Op == "In" || e.Op == "NotIn" {
+				e.Vals = []string{pick(g.R, NsVals), "z"}
+			}
+			p.NsSel.Ex = append(p.NsSel.Ex, e)
+		}
+	}
+	if p.NsNil && p.PodNil {
+		p.PodNil, p.PodSel = false, Sel{ML: Labels{}, Ex: []Expr{}}
+	}
+	return p, true
+}
+
 func (g *G) NPPeer(egress bool) NPPeer {
+	if g.O.Exposure && g.R.Intn(2) == 0 {
+		if p, ok := g.derivedPeer(); ok {
+			return p
+		}
+	}
 	p := NPPeer{Kind: "pod", NsNil: true, PodNil: true, Excepts: []Cidr{}}
 	switch g.R.Intn(10) {
 	case 0, 1, 2: // ipBlock
@@ -339,6 +411,23 @@ func Gen(r *rand.Rand, o GenOpts) *World {
 			wl.Name = "shared"
 		}
 		w.Workloads = append(w.Workloads, wl)
+	}
+	if o.Collide && len(w.Workloads) > 0 {
+		base := w.Workloads[r.Intn(len(w.Workloads))]
+		if base.Expr == "controller" {
+			twin := g.Workload(len(w.Workloads))
+			twin.NS, twin.Expr, twin.Replicas, twin.PodCount = base.NS, "controller", -1, 1
+			switch r.Intn(2) {
+			case 0: // another kind with the same name
+				twin.Name = base.Name
+				for twin.Kind == base.Kind || twin.Kind == "Pod" {
+					twin.Kind = pick(r, Kinds)
+				}
+			default: // a bare Pod named like the first synthetic replica pod
+				twin.Name, twin.Kind, twin.Expr = base.Name+"-1", "Pod", "bare"
+			}
+			w.Workloads = append(w.Workloads, twin)
+		}
 	}
 	if o.MaxNP > 0 {
 		for i, n := 0, r.Intn(o.MaxNP+1); i < n; i++ {
